@@ -2,10 +2,13 @@ package bkbn254
 
 import (
 	"bytes"
+	"crypto/sha256"
 	"fmt"
+	"hash"
 	"math/big"
 	"sync"
 
+	"github.com/consensys/gnark-crypto/ecc"
 	curve "github.com/consensys/gnark-crypto/ecc/bn254"
 	"github.com/consensys/gnark-crypto/ecc/bn254/fr"
 	"github.com/consensys/gnark-crypto/ecc/bn254/fr/fft"
@@ -610,6 +613,9 @@ func setupStructureOnPrograms(c *vh.Check) {
 	stride := 1
 	if c.Quick() {
 		stride = 7
+		if CurveID != ecc.BN254 {
+			stride = 28
+		}
 	}
 	var sel []*progen.Prog
 	for i := 0; i < len(progs); i += stride {
@@ -644,6 +650,92 @@ func setupStructureOnPrograms(c *vh.Check) {
 	c.Count("setup-structure:"+CurveID.String(), "programs", int64(len(sel)))
 }
 
+// recHash records everything the verifier absorbs into its Fiat-Shamir hash (an observation
+// seam offered by the documented option backend.WithVerifierChallengeHashFunction).
+type recHash struct {
+	hash.Hash
+	log *bytes.Buffer
+}
+
+func (r *recHash) Write(p []byte) (int, error) {
+	r.log.WriteByte('W')
+	r.log.Write(p)
+	return r.Hash.Write(p)
+}
+func (r *recHash) Sum(b []byte) []byte { r.log.WriteByte('S'); return r.Hash.Sum(b) }
+func (r *recHash) Reset()              { r.log.WriteByte('R'); r.Hash.Reset() }
+
+func transcriptOf(g *plonkCase, p *plonk.Proof, pub fr.Vector) (challenge, folding string) {
+	rc := &recHash{Hash: sha256.New(), log: new(bytes.Buffer)}
+	rf := &recHash{Hash: sha256.New(), log: new(bytes.Buffer)}
+	vh.Recover(func() {
+		_ = plonk.Verify(p, g.vk, append(fr.Vector(nil), pub...), backend.WithVerifierChallengeHashFunction(rc), backend.WithVerifierKZGFoldingHashFunction(rf))
+	})
+	return rc.log.String(), rf.log.String()
+}
+
+// fsCoverage: every public input and every proof element must be absorbed by the verifier's
+// Fiat-Shamir transcript — changing any ONE of them must change the byte stream the verifier
+// hashes (otherwise that value is not bound by the challenges and can be chosen after them).
+func fsCoverage(c *vh.Check, g *plonkCase) {
+	a := g.proof[0]
+	x := g.pub[0]
+	base, baseF := transcriptOf(g, a, x)
+	if len(base) == 0 {
+		c.Fatal("the verifier did not use the challenge hash option (%s/%s)", CurveID, g.Name)
+	}
+	one := fr.One()
+	for i := range x {
+		x2 := append(fr.Vector(nil), x...)
+		x2[i].Add(&x2[i], &one)
+		t, _ := transcriptOf(g, a, x2)
+		c.Evals.Add(1)
+		c.Traces.Add(1)
+		if t == base {
+			c.Violation(fmt.Sprintf("plonk:%s:%s:transcript-does-not-bind:public[%d]", CurveID, g.Name, i), map[string]any{"curve": CurveID.String(), "circuit": g.Name, "what": fmt.Sprintf("changing public input %d leaves every byte the verifier absorbs into its challenge hash unchanged", i)})
+		} else {
+			c.Outcome("plonk:fs-binds:public-input")
+		}
+	}
+	_, _, g1, _ := curve.Generators()
+	type slot struct {
+		name string
+		get  func(p *plonk.Proof) *curve.G1Affine
+	}
+	slots := []slot{
+		{"LRO[0]", func(p *plonk.Proof) *curve.G1Affine { return &p.LRO[0] }}, {"LRO[1]", func(p *plonk.Proof) *curve.G1Affine { return &p.LRO[1] }}, {"LRO[2]", func(p *plonk.Proof) *curve.G1Affine { return &p.LRO[2] }},
+		{"Z", func(p *plonk.Proof) *curve.G1Affine { return &p.Z }},
+		{"H[0]", func(p *plonk.Proof) *curve.G1Affine { return &p.H[0] }}, {"H[1]", func(p *plonk.Proof) *curve.G1Affine { return &p.H[1] }}, {"H[2]", func(p *plonk.Proof) *curve.G1Affine { return &p.H[2] }},
+	}
+	for i := range a.Bsb22Commitments {
+		i := i
+		slots = append(slots, slot{fmt.Sprintf("Bsb22Commitments[%d]", i), func(p *plonk.Proof) *curve.G1Affine { return &p.Bsb22Commitments[i] }})
+	}
+	for _, s := range slots {
+		p := clonePlonk(a)
+		s.get(p).Add(s.get(p), &g1)
+		t, _ := transcriptOf(g, p, x)
+		c.Evals.Add(1)
+		if t == base {
+			c.Violation(fmt.Sprintf("plonk:%s:%s:transcript-does-not-bind:%s", CurveID, g.Name, s.name), map[string]any{"curve": CurveID.String(), "circuit": g.Name, "element": s.name})
+		} else {
+			c.Outcome("plonk:fs-binds:proof-element")
+		}
+	}
+	// the claimed evaluations and the opening commitments must enter the KZG folding hash
+	for j := range a.BatchedProof.ClaimedValues {
+		p := clonePlonk(a)
+		p.BatchedProof.ClaimedValues[j].Add(&p.BatchedProof.ClaimedValues[j], &one)
+		_, tf := transcriptOf(g, p, x)
+		c.Evals.Add(1)
+		if tf == baseF {
+			c.Violation(fmt.Sprintf("plonk:%s:%s:folding-does-not-bind:ClaimedValues[%d]", CurveID, g.Name, j), map[string]any{"curve": CurveID.String(), "circuit": g.Name, "index": j})
+		} else {
+			c.Outcome("plonk:fs-binds:claimed-value")
+		}
+	}
+}
+
 // RunC02 runs the PLONK verifier check on this curve.
 func RunC02(c *vh.Check, cases []bk.Case) {
 	setupStructureOnPrograms(c)
@@ -654,6 +746,7 @@ func RunC02(c *vh.Check, cases []bk.Case) {
 			return
 		}
 		checkSetupStructure(c, g.Name, g.cs, g.vk, g.srsL)
+		fsCoverage(c, g)
 		edits := plonkEdits(g, c.Tier == "thorough")
 		for _, e := range edits {
 			if c.Expired() {
